@@ -152,6 +152,16 @@ is_job_invalid_light(IMB_MGR *state, const IMB_CIPHER_MODE cipher_mode, const IM
                         imb_set_errno(state, IMB_ERR_JOB_KEY_LEN);
                         return 1;
                 }
+                if (cipher_mode == IMB_CIPHER_CHACHA20_POLY1305 &&
+                    hash_alg != IMB_AUTH_CHACHA20_POLY1305) {
+                        imb_set_errno(state, IMB_ERR_HASH_ALGO);
+                        return 1;
+                }
+                if (cipher_mode == IMB_CIPHER_CHACHA20_POLY1305_SGL &&
+                    hash_alg != IMB_AUTH_CHACHA20_POLY1305_SGL) {
+                        imb_set_errno(state, IMB_ERR_HASH_ALGO);
+                        return 1;
+                }
                 break;
         case IMB_CIPHER_SNOW_V_AEAD:
         case IMB_CIPHER_SNOW_V:
